@@ -1,5 +1,6 @@
 import AnySyncModel.Tree.Model
 import AnySyncModel.Tree.Lemmas
+import AnySyncModel.Tree.WaitLemmas
 /-!
 C06 - change order is a function of the change set; incremental equals rebuilt.
 
@@ -163,24 +164,30 @@ theorem add_causal_attaches_all (t : T) (L : List (List Change)) (hun : t.unatt 
     (h : CausalFor t L.flatten) : ∀ c ∈ L.flatten, (addSeq t L).has c.id = true :=
   (addSeq_causal L t hun hroot h).2.2.2.1
 
-/-- confluence at full strength: ANY two deliveries (arbitrary order, so the wait list is exercised) of the same
-closed, honest set of changes - some causal order of it exists, and the snapshot of a change is attached
-whenever all its previous ids are (it is one of their ancestors) - end with the same attached set. -/
+/-- confluence at full strength: ANY two deliveries of the same changes `U` - arbitrary order inside every batch
+(so the wait list is exercised), any batching in which each batch is closed relative to the tree it arrives at
+(`SeqClosed`: some causal order of the batch exists; a change whose parent only arrives in a *later* addition is
+dropped by `clearUnattached` in the real code, so this is needed), any duplication - provided the snapshot of a
+change is attached whenever all its previous ids are (`SnapOK`: it is one of their ancestors) and ids are unique:
+all of `U` gets attached, the attachment lists are permutations of each other, the presented sequences are equal. -/
 def C06_add_confluent_full : Prop :=
-  ∀ (t : T) (L0 L1 L2 : List (List Change)) (r : Nat),
-    t.unatt = [] → t.root = some r → WFAtt t.att →
-    (∀ c ∈ t.att ++ L0.flatten, ∀ d ∈ t.att ++ L0.flatten, c.id = d.id → c = d) →
-    CausalFor t L0.flatten →
-    (∀ c ∈ L0.flatten, ∀ S : Nat → Prop, (∀ x, t.has x = true → S x) →
-        (∀ d ∈ L0.flatten, S d.id → ∀ p ∈ d.prevs, S p) → (∀ p ∈ c.prevs, S p) → S c.snap) →
-    (∀ c, c ∈ L1.flatten ↔ c ∈ L0.flatten) → (∀ c, c ∈ L2.flatten ↔ c ∈ L0.flatten) →
-    (∀ c ∈ L0.flatten, (addSeq t L1).has c.id = true) ∧ (addSeq t L1).att.Perm (addSeq t L2).att
+  ∀ (U : List Change) (t : T) (L1 L2 : List (List Change)) (r : Nat),
+    SnapOK U t → Inv U t → t.unatt = [] → t.root = some r →
+    (∀ a ∈ t.att ++ U, ∀ b ∈ t.att ++ U, a.id = b.id → a = b) →
+    (∀ c, c ∈ L1.flatten ↔ c ∈ U) → (∀ c, c ∈ L2.flatten ↔ c ∈ U) →
+    SeqClosed t L1 → SeqClosed t L2 →
+    (∀ c ∈ U, (addSeq t L1).has c.id = true) ∧ (addSeq t L1).att.Perm (addSeq t L2).att ∧
+    iter r (addSeq t L1).att = iter r (addSeq t L2).att
 
-/-- **add_confluent_partial**: the full statement restricted to deliveries that are themselves causally ordered.
-Named gap `waitlist_complete`: that a change parked in `unAttached` is attached by the wait-list cascade as soon
-as its last missing previous id arrives is not proved in Lean; the harness checks it on the real code
-(`treelevel.det.*`: same set in ascending / descending / random order; `cross.*`, `settle` in the histories) and
-compares the model's wait list with the real one step by step (`treelevel.add`). -/
+/-- **add_confluent**: the full statement holds (`Tree/WaitLemmas.lean`: the wait-list invariant - every parked
+change has a missing previous id registered in the wait list - is maintained through the cascade, so nothing
+attachable is left parked). -/
+theorem add_confluent : C06_add_confluent_full :=
+  fun U t L1 L2 r hs hinv hun hroot huniq hm1 hm2 hc1 hc2 =>
+    addSeq_confluent_any U t L1 L2 r hs hinv hun hroot huniq hm1 hm2 hc1 hc2
+
+/-- **add_confluent_partial** (kept): deliveries that are themselves causally ordered need none of `SnapOK`,
+`Inv`: everything attaches directly. -/
 theorem add_confluent_partial (t : T) (L1 L2 : List (List Change)) (r : Nat)
     (hun : t.unatt = []) (hroot : t.root = some r) (hwf : WFAtt t.att)
     (huniq : ∀ c ∈ t.att ++ L1.flatten ++ L2.flatten, ∀ d ∈ t.att ++ L1.flatten ++ L2.flatten, c.id = d.id → c = d)
@@ -189,6 +196,31 @@ theorem add_confluent_partial (t : T) (L1 L2 : List (List Change)) (r : Nat)
     (∀ c ∈ L1.flatten, (addSeq t L1).has c.id = true) ∧ (addSeq t L1).att.Perm (addSeq t L2).att :=
   ⟨add_causal_attaches_all t L1 hun (by simp [hroot]) h1,
    (addSeq_confluent t L1 L2 hun r hroot (hwf.split t.att [] (by simp)).2.1 huniq h1 h2 hsame).1⟩
+
+/-- non-vacuity of `add_confluent`: the diamond on top of root `1`, delivered child-first -/
+example : SnapOK [⟨4, [2, 3], 1, false⟩, ⟨3, [1], 1, false⟩, ⟨2, [1], 1, false⟩]
+    { root := some 1, att := [⟨1, [], 0, true⟩], lastIter := 1 } := by
+  intro t' _ hm c hc _
+  have : c.snap = 1 := by
+    simp at hc; rcases hc with rfl | rfl | rfl <;> rfl
+  rw [this]; exact hm 1 (by decide)
+
+example : CausalFor { root := some 1, att := [⟨1, [], 0, true⟩], lastIter := 1 }
+    [⟨2, [1], 1, false⟩, ⟨3, [1], 1, false⟩, ⟨4, [2, 3], 1, false⟩] := by
+  intro l1 c l2 h
+  match l1, h with
+  | [], h => simp at h; obtain ⟨rfl, _⟩ := h; exact ⟨by intro p hp; simp at hp; subst hp; left; decide, by left; decide⟩
+  | [_], h => simp at h; obtain ⟨rfl, rfl, _⟩ := h; exact ⟨by intro p hp; simp at hp; subst hp; left; decide, by left; decide⟩
+  | [_, _], h =>
+    simp at h; obtain ⟨rfl, rfl, rfl, _⟩ := h
+    exact ⟨by intro p hp; simp at hp; rcases hp with rfl | rfl <;> (right; simp), by left; decide⟩
+  | _ :: _ :: _ :: _ :: _, h => simp at h
+
+example :
+    let t : T := { root := some 1, att := [⟨1, [], 0, true⟩], lastIter := 1 }
+    iter 1 (addSeq t [[⟨4, [2, 3], 1, false⟩, ⟨3, [1], 1, false⟩, ⟨2, [1], 1, false⟩]]).att = [1, 2, 3, 4] ∧
+    iter 1 (addSeq t [[⟨3, [1], 1, false⟩], [⟨4, [2, 3], 1, false⟩, ⟨2, [1], 1, false⟩, ⟨4, [2, 3], 1, false⟩]]).att
+      = [1, 2, 3, 4] := by decide
 
 /-- non-vacuity: the diamond delivered as `[2],[3,4]` and as `[3],[2],[4,4]` -/
 example :
